@@ -28,13 +28,7 @@ def setup_manager(am: MD.AnalyticModel, Tn: float, high: str, low: str, M: int =
         cfg(m.config)
     model = MD.make_model(am)
     m.registerModel(model)
-    locH, locL = am.phase(high, Tn), am.phase(low, Tn)
-    assert locH is not None and locL is not None, "phases must exist at Tn"
-    # phase guesses: deliberately not the exact minima (the manager has to find them); displaced along the line joining
-    # the two phases, which is covariant under units, permutations, reflections and translations of field space
-    gH = locH + (guess_jitter[0] - 1.0) * (locH - locL)
-    gL = locL + (guess_jitter[1] - 1.0) * (locH - locL)
-    ph = WallGo.PhaseInfo(temperature=Tn, phaseLocation1=WallGo.Fields(gH), phaseLocation2=WallGo.Fields(gL))
+    ph = phase_info(am, Tn, high, low, guess_jitter)
     if Tscale is None:
         Tscale = 0.1 * Tn
     if fscale is None:
@@ -43,6 +37,18 @@ def setup_manager(am: MD.AnalyticModel, Tn: float, high: str, low: str, M: int =
         ph, WallGo.VeffDerivativeSettings(temperatureVariationScale=float(Tscale), fieldValueVariationScale=[float(x) for x in np.atleast_1d(fscale)])
     )
     return m
+
+
+def phase_info(am, Tn, high, low, guess_jitter=(1.05, 0.97)):
+    """PhaseInfo with guesses deliberately off the exact minima (the manager has to find them), displaced along the line
+    joining the two phases, which is covariant under units, permutations, reflections and translations of field space."""
+    import WallGo
+
+    locH, locL = am.phase(high, Tn), am.phase(low, Tn)
+    assert locH is not None and locL is not None, "phases must exist at Tn"
+    gH = locH + (guess_jitter[0] - 1.0) * (locH - locL)
+    gL = locL + (guess_jitter[1] - 1.0) * (locH - locL)
+    return WallGo.PhaseInfo(temperature=Tn, phaseLocation1=WallGo.Fields(gH), phaseLocation2=WallGo.Fields(gL))
 
 
 def solver_settings(offeq=False, mfp=50.0, thickness=5.0):
